@@ -56,7 +56,7 @@ def cls(v):
     return type(v).__name__
 
 
-REQUIRED = (['online:join-with-rows-that-lack-the-key-cell', 'online:select-in-method-form', 'online:sort-with-missing-key-cells', 'online:mergesort-3+-inputs', 'online:sort-chunked-3+-chunks', 'online:sort-chunked-3+-chunks-reverse', 'law-pairs', 'law-triples', 'online:sort', 'online:join', 'online:select', 'online:issorted', 'online:mergesort',
+REQUIRED = (['online:join-with-rows-that-lack-the-key-cell', 'online:join-with-an-explicit-buffersize', 'online:select-in-method-form', 'online:sort-with-missing-key-cells', 'online:mergesort-3+-inputs', 'online:sort-chunked-3+-chunks', 'online:sort-chunked-3+-chunks-reverse', 'law-pairs', 'law-triples', 'online:sort', 'online:join', 'online:select', 'online:issorted', 'online:mergesort',
              'nested-vs-flat'] + ['classpair:%s|%s' % (x, y) for x in CLASSES for y in CLASSES])
 
 
@@ -347,11 +347,24 @@ def _judge_online(case, ctx):
             jm = case.get('jmissing')
             if case.get('jragged'):
                 ctx.seen('online:join-with-rows-that-lack-the-key-cell')
-            for fn in ('join', 'outerjoin', 'leftjoin'):
-                jkw = {'missing': jm} if (jm is not None and fn != 'join') else {}
+            # the sort underneath runs in memory or through chunk files: the same ordering either way
+            jbs = [None, None, 1, 2, 1000][int(util.fp(case)[6:8], 16) % 5]
+            if jbs is not None:
+                ctx.seen('online:join-with-an-explicit-buffersize')
+            for fn in ('join', 'outerjoin', 'leftjoin', 'rightjoin', 'lookupjoin', 'antijoin'):
+                jkw = {'missing': jm} if (jm is not None and fn not in ('join', 'antijoin')) else {}
+                if jbs is not None:
+                    jkw['buffersize'] = jbs
                 got = util.attempt_rows(lambda: getattr(petl, fn)(table, t2, key='k', **jkw))
                 if isinstance(got, util.Raised):
                     out.append({'kind': 'exception', 'fn': fn, 'detail': got.text, 'where': got.where})
+                elif fn == 'antijoin':
+                    ks = [(r[0] if len(r) else None) for r in got[1:]]
+                    if not all(util.model_cmp(a, b) <= 0 for a, b in zip(ks, ks[1:])):
+                        out.append({'kind': 'join-output-not-grouped-ascending-under-model', 'fn': fn, 'observed': got})
+                    eh, er = oracles.ref_antijoin(copy.deepcopy(case['table']), copy.deepcopy(case['table2']), 'k', 'k')
+                    if oracles.multiset(got[1:]) != oracles.multiset(er):
+                        out.append({'kind': 'join-rows-differ-from-the-reference-under-the-ordering-equivalence', 'fn': fn, 'expected': er, 'observed': got[1:]})
                 else:
                     ks = [r[0] for r in got[1:]]
                     if not all(util.model_cmp(a, b) <= 0 for a, b in zip(ks, ks[1:])):
